@@ -76,6 +76,54 @@ K2_TRIAGED = {
 from common import canon_text as _ct
 
 
+def emptiness_subject(t):
+    """(X, polarity) when the test asks whether the mask / index array named X selects anything: `np.any(X)`, `X.any()`, `any(X)`,
+    `np.count_nonzero(X) > 0`, `X.size > 0`, `X.size != 0`, `X.size`, `len(X) > 0`, `len(X)` (polarity True = "selects something");
+    `== 0`, `not ..` give polarity False.  (None, None) otherwise."""
+    pol = True
+    while isinstance(t, ast.UnaryOp) and isinstance(t.op, ast.Not):
+        t, pol = t.operand, not pol
+
+    def measure(e):
+        """X for `X.size`, `len(X)`, `np.count_nonzero(X)`, `np.size(X)`"""
+        if isinstance(e, ast.Attribute) and e.attr == "size" and isinstance(e.value, ast.Name):
+            return e.value.id
+        if isinstance(e, ast.Call) and len(e.args) == 1 and isinstance(e.args[0], ast.Name) and not e.keywords:
+            f = ast.unparse(e.func)
+            if f in ("len", "np.count_nonzero", "np.size"):
+                return e.args[0].id
+        return None
+
+    if isinstance(t, ast.Call) and not t.keywords:
+        f = ast.unparse(t.func)
+        if f in ("np.any", "any") and len(t.args) == 1 and isinstance(t.args[0], ast.Name):
+            return t.args[0].id, pol
+        if isinstance(t.func, ast.Attribute) and t.func.attr == "any" and isinstance(t.func.value, ast.Name) and not t.args:
+            return t.func.value.id, pol
+    if measure(t) is not None:
+        return measure(t), pol
+    if isinstance(t, ast.Compare) and len(t.ops) == 1:
+        a, op, b = t.left, t.ops[0], t.comparators[0]
+        zero = lambda e: isinstance(e, ast.Constant) and e.value == 0 and not isinstance(e.value, bool)      # noqa: E731
+        one = lambda e: isinstance(e, ast.Constant) and e.value == 1 and not isinstance(e.value, bool)      # noqa: E731
+        if measure(a) is not None and zero(b):
+            if isinstance(op, (ast.Gt, ast.NotEq)):
+                return measure(a), pol
+            if isinstance(op, (ast.Eq, ast.LtE)):
+                return measure(a), not pol
+        if measure(b) is not None and zero(a):
+            if isinstance(op, (ast.Lt, ast.NotEq)):
+                return measure(b), pol
+            if isinstance(op, (ast.Eq, ast.GtE)):
+                return measure(b), not pol
+        if measure(a) is not None and one(b):
+            if isinstance(op, ast.GtE):
+                return measure(a), pol
+            if isinstance(op, ast.Lt):
+                return measure(a), not pol
+    return None, None
+
+
 def site_canon(text):
     """polarity-insensitive form of a branch test (a *site* is the same site whichever branch comes first): leading `not` stripped,
     a single comparison written with textually sorted operands and the operator family {<, >=} -> `<`, {<=, >} -> `<=`, {==, !=} -> `==`"""
@@ -85,6 +133,8 @@ def site_canon(text):
         return text
     while isinstance(t, ast.UnaryOp) and isinstance(t.op, ast.Not):
         t = t.operand
+    if emptiness_subject(t)[0] is not None:
+        return "np.any(_)"       # every spelling of "does this mask / index array select anything" is one site
     if isinstance(t, ast.Compare) and len(t.ops) == 1:
         a, b, op = t.left, t.comparators[0], type(t.ops[0])
         mirror = {ast.Lt: ast.Gt, ast.Gt: ast.Lt, ast.LtE: ast.GtE, ast.GtE: ast.LtE}
@@ -142,6 +192,8 @@ def is_batch_test(test, lens):
         return True
     if re.search(r"\b(any|all)\(\(", t):        # python any()/all() over a generator
         return True
+    if emptiness_subject(test)[0] is not None:   # python any(mask), np.count_nonzero(mask) > 0, ...
+        return True
     for x in ast.walk(test):
         if isinstance(x, ast.Name) and x.id in lens:
             return True
@@ -153,13 +205,8 @@ def skip_empty_work(node):
     or into local temporaries"""
     if not isinstance(node, ast.If) or node.orelse:
         return False
-    t = node.test
-    mask = None
-    if isinstance(t, ast.Call) and ast.unparse(t.func) == "np.any" and len(t.args) == 1 and isinstance(t.args[0], ast.Name):
-        mask = t.args[0].id
-    if isinstance(t, ast.Call) and isinstance(t.func, ast.Attribute) and t.func.attr == "any" and isinstance(t.func.value, ast.Name) and not t.args:
-        mask = t.func.value.id
-    if mask is None:
+    mask, nonempty = emptiness_subject(node.test)
+    if mask is None or not nonempty:
         return False
     derived = {mask}
     for s in ast.walk(ast.Module(body=node.body, type_ignores=[])):
@@ -186,6 +233,96 @@ def skip_empty_work(node):
                             if not (idx_names & derived) and not base_local:
                                 return False
     return True
+
+
+def group_by_loop(fn, call):
+    """`for v in np.unique(A)[.tolist()]:` whose body selects the rows with `A == v` and writes only under that selection: evaluation
+    group by group.  Which groups exist depends on the batch, what a row receives does not (a value that does not occur selects no row).
+    The body may bind names computed from v or from the selection, `continue`, and nothing else (no accumulator, no early exit)."""
+    loop = None
+    for n in ast.walk(fn):
+        if isinstance(n, ast.For) and any(x is call for x in ast.walk(n.iter)):
+            loop = n
+    if loop is None or loop.orelse or not isinstance(loop.target, ast.Name) or not call.args or not isinstance(call.args[0], ast.Name) \
+            or len(call.args) != 1 or call.keywords or ast.unparse(call.func) != "np.unique":
+        return False
+    it = loop.iter
+    if not (it is call or (isinstance(it, ast.Call) and isinstance(it.func, ast.Attribute) and it.func.attr == "tolist" and it.func.value is call and not it.args)):
+        return False
+    A, v = call.args[0].id, loop.target.id
+    body = ast.Module(body=loop.body, type_ignores=[])
+    if any(isinstance(x, (ast.Return, ast.Raise, ast.Break, ast.While, ast.For, ast.AugAssign)) and not (isinstance(x, ast.AugAssign) and isinstance(x.target, ast.Subscript))
+           for x in ast.walk(body)):
+        return False
+
+    def is_sel_compare(e):
+        return isinstance(e, ast.Compare) and len(e.ops) == 1 and isinstance(e.ops[0], ast.Eq) and \
+            {ast.unparse(e.left), ast.unparse(e.comparators[0])} == {A, v}
+    derived, sel = {v}, set()
+    for _ in range(4):
+        for a in ast.walk(body):
+            if isinstance(a, ast.Assign):
+                names = {x.id for x in ast.walk(a.value) if isinstance(x, ast.Name)}
+                tn = {x.id for t in a.targets for x in ast.walk(t) if isinstance(x, ast.Name) and isinstance(x.ctx, ast.Store)}
+                if any(is_sel_compare(x) for x in ast.walk(a.value)) or names & sel:
+                    sel |= {t.id for t in a.targets if isinstance(t, ast.Name)}
+                if names & (derived | sel):
+                    derived |= tn
+    for a in ast.walk(body):
+        if isinstance(a, (ast.Assign, ast.AugAssign)):
+            for tg in (a.targets if isinstance(a, ast.Assign) else [a.target]):
+                for el in (tg.elts if isinstance(tg, (ast.Tuple, ast.List)) else [tg]):
+                    if isinstance(el, ast.Name):
+                        if el.id not in derived | sel:
+                            return False          # loop-carried state
+                    elif isinstance(el, ast.Subscript):
+                        first = el.slice.elts[0] if isinstance(el.slice, ast.Tuple) and el.slice.elts else el.slice
+                        if not (isinstance(first, ast.Name) and first.id in sel):
+                            return False          # a write that is not confined to the rows of the group
+                    else:
+                        return False
+    return bool(sel)
+
+
+_GB_OK = """
+def f(cases, allargs, table, result):
+    for cid in np.unique(cases).tolist():
+        if cid not in table:
+            continue
+        fk, ar = table[cid]
+        rows = np.flatnonzero(cases == cid)
+        result[rows] = fk(*[allargs[a][rows] for a in ar])
+    return result
+"""
+_GB_BAD = ["""
+def f(cases, allargs, table, result):
+    for cid in np.unique(cases).tolist():
+        rows = np.flatnonzero(cases == cid)
+        result[:len(rows)] = table[cid](allargs[rows])
+    return result
+""", """
+def f(cases, allargs, table, result):
+    total = 0
+    for cid in np.unique(cases):
+        rows = cases == cid
+        total += 1
+        result[rows] = table[cid](allargs[rows]) * total
+    return result
+""", """
+def f(cases, other, table, result):
+    for cid in np.unique(cases):
+        rows = other == cid
+        result[rows] = table[cid](other[rows])
+    return result
+"""]
+
+
+def group_by_self_check():
+    def verdict(src):
+        fn = ast.parse(src).body[0]
+        call = next(x for x in ast.walk(fn) if isinstance(x, ast.Call) and ast.unparse(x.func) == "np.unique")
+        return group_by_loop(fn, call)
+    return verdict(_GB_OK) and not any(verdict(b) for b in _GB_BAD)
 
 
 RUN_GROUP_IFS = []
@@ -238,13 +375,79 @@ def _expand_names(call, fn):
     return Sub().visit(_copy.deepcopy(call))
 
 
+def batched_functions(repo):
+    """names of the numerical-layer functions that can be handed a batch of rows: the level-1 field functions registered on the source
+    classes (`_field_func = staticmethod(F)`), the functions exported by `magpylib.core`, and every function of the layer they refer to
+    (calls and function values alike), transitively.  The mesh-topology helpers (open edges, connected subsets, face orientation) are only
+    called from the TriangularMesh class with ONE mesh; no axis of their arrays enumerates batch rows."""
+    layer = {fname: fn for m, fname, fn in field_functions(repo)}
+    roots = set()
+    for m in repo.mods.values():
+        if m.name.startswith(FIELDS):
+            continue
+        for n in ast.walk(m.tree):
+            if isinstance(n, ast.Assign) and any(isinstance(t, (ast.Name, ast.Attribute)) and getattr(t, "id", getattr(t, "attr", "")) == "_field_func" for t in n.targets):
+                roots |= {x.id for x in ast.walk(n.value) if isinstance(x, ast.Name) and x.id in layer}
+            if isinstance(n, ast.ImportFrom) and m.name.startswith("magpylib.core") and (n.module or "").startswith(FIELDS):
+                roots |= {a.name for a in n.names if a.name in layer}
+    seen, todo = set(), sorted(roots)
+    while todo:
+        f = todo.pop()
+        if f in seen:
+            continue
+        seen.add(f)
+        for x in ast.walk(layer[f]):
+            nm = x.id if isinstance(x, ast.Name) else x.attr if isinstance(x, ast.Attribute) else None
+            if nm in layer and nm not in seen:
+                todo.append(nm)
+    return roots, seen
+
+
+def _operand(call):
+    """(text of the array a reduction call reduces, its axis text)"""
+    ax = next((ast.unparse(k.value) for k in call.keywords if k.arg == "axis"), None)
+    if isinstance(call.func.value, ast.Name) and call.func.value.id == "np":
+        arr = call.args[0] if call.args else None
+        if ax is None and len(call.args) > 1:
+            ax = ast.unparse(call.args[1])
+    else:
+        arr = call.func.value
+        if ax is None and call.args:
+            ax = ast.unparse(call.args[0])
+    return (ast.unparse(arr) if arr is not None else None), ax
+
+
+def _bound_once(fn, name):
+    n = 0
+    for a in ast.walk(fn):
+        if isinstance(a, (ast.Assign, ast.AugAssign, ast.AnnAssign, ast.For, ast.comprehension, ast.NamedExpr, ast.withitem)):
+            tg = a.targets if isinstance(a, ast.Assign) else [a.optional_vars] if isinstance(a, ast.withitem) else [a.target]
+            n += sum(1 for t in tg if t is not None for x in ast.walk(t) if isinstance(x, ast.Name) and x.id == name)
+    return n + (1 if name in {p.arg for p in fn.args.posonlyargs + fn.args.args + fn.args.kwonlyargs} else 0) == 1
+
+
 def k1_k2(repo, res):
     n_fn = n1 = n2 = 0
     seen1, seen2 = set(), set()
     mod_of = {fname: m.name for m, fname, fn in field_functions(repo)}
+    res.require(group_by_self_check(), "K2 group-by idiom: the embedded accepted / rejected examples are no longer told apart")
+    roots, batched = batched_functions(repo)
+    res.require(len(roots) >= 15, f"only {len(roots)} registered level-1 / core field functions found")
+    res.analysed["field_entry_functions"] = sorted(roots)
+    res.analysed["not_on_the_field_path"] = sorted(set(mod_of) - batched)
     for m, fname, fn in field_functions(repo):
         n_fn += 1
+        if fname not in batched:
+            continue
         lens = len_names(fn)
+        # what axis 0 of an array enumerates does not depend on the reducer: a triaged reduction of an array (bound once) covers every
+        # other reduction of the same array along the same axis in that function
+        triaged_operands = set()
+        for n in ast.walk(fn):
+            if isinstance(n, ast.Call) and isinstance(n.func, ast.Attribute) and n.func.attr in RED and (fname, shape(_expand_names(n, fn))) in K2_TRIAGED:
+                arr, ax = _operand(n)
+                if arr and arr.isidentifier() and _bound_once(fn, arr):
+                    triaged_operands.add((arr, ax))
         for n in ast.walk(fn):
             if isinstance(n, (ast.If, ast.While, ast.IfExp)) and is_batch_test(n.test, lens):
                 # nested functions are walked as part of their parent; skip duplicates
@@ -273,8 +476,13 @@ def k1_k2(repo, res):
                 key = _moved((fname, shape(_expand_names(n, fn))), m, K2_TRIAGED, mod_of)
                 n2 += 1
                 ok = key in K2_TRIAGED
+                same_arr = None
+                if not ok and _operand(n) in triaged_operands:
+                    ok, same_arr = True, f"same array and axis as a triaged reduction of `{_operand(n)[0]}` in this function"
+                if not ok and n.func.attr == "unique" and group_by_loop(fn, n):
+                    ok, same_arr = True, "group-by loop: the rows with each occurring value are evaluated and written under their own selection"
                 seen2.add(key)
-                res.ob(f"K2:{fname}:{norm(n)}", ok, {"rule": "K2", "function": fname, "reduction": norm(n), "shape": key[1], "triaged_as": K2_TRIAGED.get(key)})
+                res.ob(f"K2:{fname}:{norm(n)}", ok, {"rule": "K2", "function": fname, "reduction": norm(n), "shape": key[1], "triaged_as": K2_TRIAGED.get(key) or same_arr})
                 if not ok:
                     res.add(Finding("K2", m.rel, fname, n, "reduction/scan along the first axis (or without axis) in the numerical layer: may combine "
                                     "values of different batch rows (not a triaged site)", n.lineno))
